@@ -54,6 +54,13 @@ def gen_ops(tier, rng):
         mode = rng.choice(["all", "all", "data", "someT", "someD"])
         req = sorted(rng.sample(range(d), min(d, 2))) if mode.startswith("some") else []
         add(fam, rng.choice(["-", "-", "nosimd", "ic-", "avx2-"]), d, p, size, mode, E, req, rng.choice(["nil", "empty", "cap"]), "seeded-" + fam)
+    # shard sizes that are EXACT multiples of the 32 KiB (GF8) / 128 KiB (GF16) work chunk, and one symbol block more or less:
+    # the last chunk is a full one
+    for (fam, d, p, size) in [("leo8", 5, 3, 32768), ("leo8", 8, 2, 65536), ("leo8", 3, 3, 32768), ("leo8", 4, 4, 98304),
+                              ("leo8", 5, 3, 32768 - 64), ("leo8", 10, 1, 32768), ("leo16", 5, 3, 131072), ("leo16", 3, 2, 262144),
+                              ("leo16", 4, 3, 131072 - 64), ("leo16", 4, 3, 131072 + 64)]:
+        E = sorted(rng.sample(range(d + p), rng.randint(1, p)))
+        add(fam, rng.choice(["-", "avx2-"]), d, p, size, rng.choice(["all", "data"]), E, [], "nil", "chunk-multiple-" + fam)
     # unit level: after prepare(), isNeeded(mip, bit) <=> the aligned 2^mip block of `bit` holds an erasure (every block, every level)
     for _ in range(120 if tier == "quick" else 3000):
         k = rng.choice([1, 1, 2, 3, 5, 20, 200])
